@@ -208,7 +208,7 @@ func TestVerif_C01_ServerCanaries(t *testing.T) {
 				w.logf("%s -> %v", p, r)
 			},
 			"seal-unseal": func(rt *rapid.T) {
-				if err := tc.c.sealInternal(); err != nil {
+				if err := tc.seal(); err != nil {
 					t.Fatalf("harness: seal: %v", err)
 				}
 				if err := tc.unseal(tc.keys); err != nil {
